@@ -892,7 +892,7 @@ class Engine:
             return
         h = self.intr.go_stmt(self, st, fr, callee, args, ins)
         if h is not None:
-            return h
+            return h or None
         # default: run the goroutine to completion at the go statement (stated assumption)
         return self.do_call(st, fr, callee, args, None, ins)
 
@@ -1764,7 +1764,12 @@ class Engine:
         maxlen = int(self.opts.get("max_make", 1 << 20))
         # len must be 0 <= len <= cap <= max
         if type(ln) is not int:
-            if not self.oblige(st, z3.ULE(bv(ln, 64), z3.BitVecVal(maxlen, 64)), "panic", "makeslice: len out of range (or beyond modelled maximum %d)" % maxlen, pos):
+            amax = self.opts.get("make_assume_max")
+            if amax is not None:
+                # precondition of the property under check: declared sizes are small enough to allocate
+                if not self.assume(st, z3.ULE(bv(ln, 64), z3.BitVecVal(int(amax), 64))):
+                    return
+            elif not self.oblige(st, z3.ULE(bv(ln, 64), z3.BitVecVal(maxlen, 64)), "panic", "makeslice: len out of range (or beyond modelled maximum %d)" % maxlen, pos):
                 return
             c = self.concretize(st, ln)
             if c is None:
